@@ -473,7 +473,6 @@ class QasmModule(ABC):  # pylint: disable=too-many-instance-attributes
                     if isinstance(stmt, qasm3_ast.QubitDeclaration):
                         if stmt.qubit.name == reg_name:
                             qasm_module._unrolled_ast.statements.remove(stmt)
-                            qasm_module._statements.remove(stmt)
                             break
 
                 del qasm_module._qubit_registers[reg_name]
